@@ -63,6 +63,10 @@ def make_hook(world_ref, wname, hname, outcome, log):
             n = len([e for e in log if e["watcher"] == wname and
                      e["hook"] == hname])
             return n <= 2
+        if outcome == 'none':
+            return None       # a hook that forgot its return statement
+        if outcome == 'zero':
+            return 0
         return outcome == 'true'
     hook.__name__ = 'hook_%s' % hname
     return hook
@@ -453,7 +457,8 @@ def lifecycle_cases(requests=('incr', 'decr', 'set', 'restart', 'reload',
                                         min_size=1, max_size=2,
                                         unique=True)):
                     hk[hn] = [draw(st.sampled_from(
-                        ['true', 'false', 'raise'])), draw(st.booleans())]
+                        ['true', 'false', 'raise', 'true', 'false', 'raise',
+                         'none'])), draw(st.booleans())]
                 wc["hooks"] = hk
             if extra_watcher_opts:
                 wc.update(draw(extra_watcher_opts))
